@@ -16,7 +16,9 @@ LEAN = ROOT / "lean"
 CACHE = ROOT / ".cache"
 OUT = ROOT / "out"
 EVID = ROOT / "evidence"
-DRIVER = LEAN / ".lake" / "build" / "bin" / "driver"
+def driver_path(container):
+    return LEAN / ".lake" / "build" / "bin" / f"driver_{container}"
+
 NPROC = os.cpu_count() or 4
 
 CFLAGS = ["-O1", "-g", "-fsanitize=address,undefined", "-fno-sanitize-recover=all",
@@ -67,9 +69,10 @@ def build_lean():
     import gen_constants
     with Lock("lake"):
         gen_constants.write(REPO, LEAN / "CollectionsC" / "Generated" / "Constants.lean")
+        sh([sys.executable, str(ROOT / "tools" / "regen.py")])
         r = sh(["lake", "build"], cwd=LEAN)
     out = r.stdout + r.stderr
-    failed = re.findall(r"^- (CollectionsC\.[\w.]+|Main)$", out, re.M)
+    failed = re.findall(r"^- (CollectionsC\.[\w.]+|Mains\.\w+|driver_\w+)", out, re.M)
     errs = re.findall(r"^error: (.*)$", out, re.M)
     return r.returncode == 0, out, failed, errs
 
@@ -191,7 +194,7 @@ def run_c(exe, lines, timeout=120):
 
 
 def run_lean(container, lines, timeout=300):
-    r = subprocess.run([str(DRIVER), container], input="\n".join(lines) + "\n", stdout=subprocess.PIPE,
+    r = subprocess.run([str(driver_path(container))], input="\n".join(lines) + "\n", stdout=subprocess.PIPE,
                        stderr=subprocess.PIPE, text=True, timeout=timeout)
     out = r.stdout.split("\n")
     if out and out[-1] == "":
